@@ -16,6 +16,15 @@ func cutPrefixFold(s, prefix string) (string, bool) {
 func parseCmd(line string) (cmd string, arg string, err error) {
 	line = strings.TrimRight(line, "\r\n")
 
+	// A command line consists of printable characters (RFC 5321 section
+	// 4.1.2, RFC 6531 for UTF-8). Control characters such as NUL or a bare CR
+	// must not reach the handlers, which echo parts of the line in replies.
+	for i := 0; i < len(line); i++ {
+		if ch := line[i]; (ch < ' ' && ch != '\t') || ch == 0x7f {
+			return "", "", fmt.Errorf("control character in command: %q", line)
+		}
+	}
+
 	l := len(line)
 	switch {
 	case strings.HasPrefix(strings.ToUpper(line), "STARTTLS"):
